@@ -218,6 +218,28 @@ fn run_hist(c: &HistCase) -> CaseResult {
                 _ => {}
             }
             v.label("fraction_observed");
+            // the completed fraction as it is painted: {percent} and {percent_precise} stay within 0..=100
+            if let Ok(lines) = vt.last_frame_lines() {
+                if let Some(l) = lines.first() {
+                    let toks: Vec<&str> = l.split_whitespace().collect();
+                    if toks.len() > 3 {
+                        let (p, pp) = (toks[2].parse::<f64>(), toks[3].parse::<f64>());
+                        ensure!(
+                            matches!((&p, &pp), (Ok(a), Ok(b)) if (0.0..=100.0).contains(a) && (0.0..=100.0).contains(b)),
+                            "percent_range",
+                            "after op #{i} {op:?} (pos {pos}, len {len:?}): painted {{percent}} {{percent_precise}} = {:?} {:?}, outside 0..=100",
+                            toks[2],
+                            toks[3]
+                        );
+                        let full = len == Some(0) || matches!(len, Some(l) if pos >= l);
+                        if full || len.is_none() {
+                            let want = if full { 100.0 } else { 0.0 };
+                            ensure!(p == Ok(want) && pp == Ok(want), "percent_range", "after op #{i} {op:?} (pos {pos}, len {len:?}): painted percent {:?} / {:?}, expected {want}", toks[2], toks[3]);
+                        }
+                        v.label("painted_percent_checked");
+                    }
+                }
+            }
         }
     }
     v.nontrivial = crossed;
@@ -248,6 +270,9 @@ pub struct ThreadPlan {
     dec_mask: u64,
     /// use a clone of the handle (true) or a shared reference (false)
     clone: bool,
+    /// every 4th op additionally adjusts the length: inc_length(3), every 12th dec_length(1)
+    #[serde(default)]
+    len_ops: bool,
 }
 
 #[derive(Debug, Clone, Serialize, Deserialize)]
@@ -262,8 +287,10 @@ pub struct ConcCase {
 fn run_conc(c: &ConcCase) -> CaseResult {
     let vt = VTerm::raw(50, 80);
     let target = if c.visible { ProgressDrawTarget::term_like(vt.boxed()) } else { ProgressDrawTarget::hidden() };
-    let pb = ProgressBar::with_draw_target(Some(1000), target).with_position(c.start);
+    const LEN0: u64 = 1 << 40;
+    let pb = ProgressBar::with_draw_target(Some(LEN0), target).with_position(c.start);
     let mut expect = c.start;
+    let mut expect_len = LEN0;
     for t in &c.threads {
         for i in 0..t.n_ops as usize {
             let d = t.deltas[i % t.deltas.len()];
@@ -271,6 +298,13 @@ fn run_conc(c: &ConcCase) -> CaseResult {
                 expect = expect.wrapping_sub(d);
             } else {
                 expect = expect.wrapping_add(d);
+            }
+            if t.len_ops && i % 4 == 3 {
+                if i % 12 == 11 {
+                    expect_len -= 1;
+                } else {
+                    expect_len += 3;
+                }
             }
         }
     }
@@ -292,6 +326,13 @@ fn run_conc(c: &ConcCase) -> CaseResult {
                             p.dec(d);
                         } else {
                             p.inc(d);
+                        }
+                        if t.len_ops && i % 4 == 3 {
+                            if i % 12 == 11 {
+                                p.dec_length(1);
+                            } else {
+                                p.inc_length(3);
+                            }
                         }
                     }
                 }));
@@ -317,12 +358,15 @@ fn run_conc(c: &ConcCase) -> CaseResult {
     r.map_err(|p| Fail::new("panic", format!("concurrent inc/dec panicked: {p}")))?;
     let got = pb.position();
     ensure!(got == expect, "lost_update", "after {} threads finished: position() = {got}, the sum of all deltas gives {expect}", c.threads.len());
+    let got_len = pb.length();
+    ensure!(got_len == Some(expect_len), "lost_length_update", "after {} threads finished: length() = {got_len:?}, the inc_length/dec_length calls add up to {expect_len}", c.threads.len());
     let mut v = Verdict::default();
     v.nontrivial = c.threads.len() >= 2;
     v.label_if(c.threads.len() >= 2, "two_or_more_threads");
     v.label_if(c.threads.iter().any(|t| t.dec_mask != 0) && c.threads.iter().any(|t| t.dec_mask != u64::MAX), "inc_and_dec_mixed");
     v.label_if(c.threads.iter().any(|t| t.clone), "clones");
     v.label_if(c.reader, "concurrent_reader");
+    v.label_if(c.threads.iter().filter(|t| t.len_ops).count() >= 2, "concurrent_length_adjustments");
     Ok(v)
 }
 
@@ -333,11 +377,49 @@ fn conc_strategy(tier: Tier) -> BoxedStrategy<ConcCase> {
         proptest::collection::vec(prop_oneof![3 => 1u64..5, 1 => special_u64()], 1..4),
         prop_oneof![Just(0u64), Just(u64::MAX), any::<u64>(), Just(0xAAAA_AAAA_AAAA_AAAA)],
         any::<bool>(),
+        any::<bool>(),
     )
-        .prop_map(|(n_ops, deltas, dec_mask, clone)| ThreadPlan { n_ops, deltas, dec_mask, clone });
+        .prop_map(|(n_ops, deltas, dec_mask, clone, len_ops)| ThreadPlan { n_ops, deltas, dec_mask, clone, len_ops });
     (special_u64(), proptest::collection::vec(plan, 1..=16), any::<bool>(), any::<bool>())
         .prop_map(|(start, threads, visible, reader)| ConcCase { start, threads, visible, reader })
         .boxed()
+}
+
+fn decode_hist(u: &mut FuzzInput) -> HistCase {
+    let len = if u.n(6) == 0 { None } else { Some(u.special_u64()) };
+    let start = u.special_u64();
+    let hidden = u.n(4) == 0;
+    let mut ops = vec![];
+    while !u.empty() && ops.len() < 60 {
+        ops.push(match u.n(31) {
+            0..=4 => Op::Inc(u.special_u64()),
+            5 | 6 => Op::Dec(u.special_u64()),
+            7 | 8 => Op::SetPos(u.special_u64()),
+            9 => Op::UpdateSetPos(u.special_u64()),
+            10 => Op::Reset,
+            11 => Op::Finish,
+            12 => Op::FinishWithMessage,
+            13 => Op::FinishAndClear,
+            14 => Op::Abandon,
+            15 => Op::AbandonWithMessage,
+            16 => Op::FinishUsingStyle,
+            17 | 18 => Op::SetLen(u.special_u64()),
+            19 => Op::UpdateSetLen(u.special_u64()),
+            20 => Op::IncLen(u.special_u64()),
+            21 => Op::DecLen(u.special_u64()),
+            22 => Op::UnsetLen,
+            23 => Op::Tick,
+            24 => Op::WithFinish(u.n(4) as u8),
+            25 => Op::ResetEta,
+            26 => Op::ResetElapsed,
+            27 => [Op::SetMessage, Op::SetPrefix, Op::Println, Op::Suspend][u.n(3)].clone(),
+            28 => Op::SetStyle,
+            29 => Op::SetTabWidth(u.n(12) as u8),
+            30 => Op::ForceDraw,
+            _ => Op::CloneAndDrop,
+        });
+    }
+    HistCase { len, start, ops, hidden }
 }
 
 pub fn property() -> Property {
@@ -359,7 +441,7 @@ pub fn property() -> Property {
                 signature: no_signature,
                 essential: &["wrapped_u64_boundary", "reset", "finish", "len_saturating", "hidden_target", "unrelated_calls_interleaved"],
                 workers: w,
-                decode: None,
+                decode: Some(decode_hist),
             }),
             Box::new(Gen::<ConcCase> {
                 name: "threads",
@@ -368,7 +450,7 @@ pub fn property() -> Property {
                 cases: |t| t.pick(60, 1_500),
                 run: run_conc,
                 signature: no_signature,
-                essential: &["two_or_more_threads", "inc_and_dec_mixed", "clones", "concurrent_reader"],
+                essential: &["two_or_more_threads", "inc_and_dec_mixed", "clones", "concurrent_reader", "concurrent_length_adjustments"],
                 workers: 2,
                 decode: None,
             }),
